@@ -320,9 +320,15 @@ def setter_cases(family):
             for k in range(-100, 101, 10):
                 yield ('set_ongrid_battery_dod', (base + k,), 'silent')
     for sid in ('', ' ', 'grid_export_limi', 'Grid_export_limit', 'grid_export_limit ', 'eco_mode_5', 'work-mode', 'unknown',
-                'mod', 'time2'):
+                'mod', 'time2') + UNLISTED_NUMERIC:
         yield ('write_setting', (sid, 1), 'ValueError')
         yield ('read_setting', (sid,), 'ValueError')
+
+
+# ids that contain a register number at every position without being the documented raw-register form 'modbus-<n>'
+UNLISTED_NUMERIC = tuple('x' * k + '47510' for k in range(0, 12)) + tuple('_' * k + '40328' for k in (6, 7, 8)) + \
+    ('setting47510', 'unknown1', 'no_such-12', ' modbus-47510', 'Modbus-47510', 'MODBUS-47510', 'xmodbus-47510', 'modbu-s47510',
+     'register-47510', 'mod-bus-47510', '47510-modbus', '-47510', '0x47510')
 
 
 def job_setters(j):
